@@ -406,8 +406,90 @@ fn check_serialized<T: Serialize>(name: &str, t: &T, rs: &RuleSet, world: &Arc<M
     }
 }
 
+/// a long ruleset: hundreds of rules that fail deep inside a nest of operators (every error class,
+/// at several nesting depths), with a good rule after every few of them; whatever the failing
+/// rules leave behind, every outcome equals the reference value of its own rule
+fn long_ruleset_leg(n: usize, acc: &mut Acc) {
+    let failing = ["missing", "i1 / i0", "i1 + \"a\"", "int(\"zz\")", ":nosuch", "nofn(i1)", "week(i9223372036854775807)", "x.y.z.w + i1", "[i1].5 + i1"];
+    let mut texts: Vec<String> = Vec::new();
+    for i in 0..n {
+        if i % 7 == 6 {
+            texts.push(format!("x.y + i{i}"));
+            continue;
+        }
+        let core = failing[i % failing.len()];
+        let depth = 1 + (i / failing.len()) % 6;
+        let mut t = format!("({core})");
+        for d in 0..depth {
+            t = match (i + d) % 5 {
+                0 => format!("(({t} + i{i}) * i2)"),
+                1 => format!("[i1, {t}, i3]"),
+                2 => format!("{{k: ({t} - i3) / i4}}"),
+                3 => format!("is_some(int({t}))"),
+                _ => format!("(({t} > i0) == true)"),
+            };
+        }
+        texts.push(t);
+    }
+    let mut rules = Vec::new();
+    let mut trees = Vec::new();
+    for (i, t) in texts.iter().enumerate() {
+        match super::common::parse_expr(t) {
+            Ok(Ok(e)) => {
+                trees.push(RE::from_expr(&e));
+                rules.push(Rule::new(format!("r{i}"), BTreeMap::new(), e));
+            }
+            other => return acc.machinery(format!("long-ruleset rule {t:?} does not parse: {other:?}")),
+        }
+    }
+    let world = Arc::new(Mutex::new(World::default()));
+    let rs = match build(&rules, &world) {
+        Ok(r) => r,
+        Err(m) => return acc.machinery(m),
+    };
+    let (_, input) = inputs().into_iter().next().unwrap();
+    let fails = BTreeMap::new();
+    for round in 0..2 {
+        acc.count("executions", 1);
+        match evaluate(&rs, &input.to_value()) {
+            Err(m) => {
+                acc.violation(Violation { sig: "long-ruleset/failed".into(), what: format!("evaluation of {n} rules failed as a whole: {m}"), case: json!({"kind": "long-ruleset", "n": n}), size: n });
+                return;
+            }
+            Ok((obs, _, _)) => {
+                if obs.len() != n {
+                    acc.violation(Violation { sig: "long-ruleset/count".into(), what: format!("{} outcomes for {n} rules", obs.len()), case: json!({"kind": "long-ruleset", "n": n}), size: n });
+                    return;
+                }
+                for (i, (name, o)) in obs.iter().enumerate() {
+                    let mut env = DetEnv { facts: input.clone(), syms: symbols(), fails: &fails };
+                    let exp = eval(&trees[i], &mut env);
+                    if *name != format!("r{i}") || conforms(&exp, o) == Some(false) {
+                        acc.violation(Violation {
+                            sig: "long-ruleset/outcome".into(),
+                            what: format!("ruleset of {n} rules (round {round}): outcome {i} ({name}, `{}`) is {}, its rule alone gives {}", texts[i], o.show(), show_exp(&exp)),
+                            case: json!({"kind": "long-ruleset", "n": n}),
+                            size: i,
+                        });
+                        return;
+                    }
+                }
+            }
+        }
+    }
+    acc.outcome("long-ruleset");
+}
+
 pub fn run(tier: Tier) -> i32 {
     let mut rep = Report::new("C09", tier);
+    {
+        let mut acc = Acc::new();
+        for n in tier.pick(vec![100usize, 700], vec![100, 700, 5000]) {
+            long_ruleset_leg(n, &mut acc);
+        }
+        rep.bound("long_rulesets", tier.pick("100 and 700 rules", "100, 700 and 5000 rules"));
+        rep.absorb(acc);
+    }
     let pool = rule_pool();
     let mut ctx = Ctx { rules: Vec::new(), trees: Vec::new(), names: Vec::new() };
     for (name, text) in &pool {
@@ -489,6 +571,20 @@ pub fn run(tier: Tier) -> i32 {
 }
 
 pub fn replay(case: &serde_json::Value) -> i32 {
+    if case.get("kind").and_then(|k| k.as_str()) == Some("long-ruleset") {
+        let n = case.get("n").and_then(|n| n.as_u64()).unwrap_or(100) as usize;
+        let mut acc = Acc::new();
+        long_ruleset_leg(n, &mut acc);
+        return if acc.violations.is_empty() {
+            println!("long ruleset of {n} rules: verdict: holds");
+            0
+        } else {
+            for v in acc.violations.values() {
+                println!("verdict: VIOLATED — {}", v.what);
+            }
+            1
+        };
+    }
     println!("C09 replay: re-running the recorded rule sequence over all inputs and failure sets");
     let seq: Vec<usize> = case
         .get("rules")
